@@ -532,13 +532,16 @@ func main() {
 func mainT() {
 	vrt.WorkerMain(allHarnesses())
 	run := evid.New("C33", "exploration")
-	run.Rule = "E1(seq): per scenario (1-2 dependencies x 1-2 local origins), ONE controlled thread executes a tag-replication task with the real tagreplication.Executor over the real blobclient.ClusterClient (ReplicateToRemote -> Poll, hard-coded back-off on a virtual clock) up to `attempts` times (stopping at the first nil, as the persisted-retry manager does) and then once more in a closing phase where every answer is ok. Every environment answer is a vrt.Choose: remote build-index Has {truthful, 503}, Origin {ok, 503}, PutAndReplicate {ok, 503, 409, network error, stored but response lost}; each local origin's ReplicateToRemote {ok, 202 then ok, 202 until the back-off stops, 503, 404, network error}. The explorer enumerates every answer sequence with at most `bound` non-default answers. Oracle: whenever PutAndReplicate reaches the remote build-index every dependency has been answered ok by a local origin for that remote origin cluster; Exec returns nil only if the remote build-index holds the tag with the task's digest; the closing Exec returns nil. distinct = distinct outcome classes (per-Exec result class incl. 202 / back-off timeout / origin fall-back flags) per scenario. PART 2, E1q (testing/synctest bubble): 2-3 tasks (two remote clusters A, B and/or two tags, 1-2 dependency blobs) are executed by concurrent real Executor.Exec calls over the real ClusterClient in front of the REAL blobserver.Server (replicate-to-remote requests served by Server.Handler().ServeHTTP, blobs in a real CAStore); seams = each remote origin cluster's UploadBlob (parks while the upload is in flight; on release reads the bytes the origin sends and records that remote origin R holds the blob) and each remote build-index's PutAndReplicate; EVERY order of the actions 'start Exec <task>' and of the parked seams is executed. Oracle: when PutAndReplicate reaches build-index R, remote origin R has really received every dependency blob of that task; Exec nil => build-index R holds the tag; every Exec returns. PART 3, E1q: the world of part 2 with (a) the SAME task (same tag, remote, dependency blobs) executed by 2-3 build-index replicas at once (plus: one tag to two remotes; two tags sharing a blob on one remote; thorough: two replicas and a second remote), so that several replicate-to-remote requests for the same (remote, namespace, blob) are inside the real origin handler together, (b) the outcome of every released upload an environment answer {ok; 503, nothing stored; bytes stored but the response is lost}, at most maxFail non-ok answers per execution, (c) 'retry Exec <task>' as a further action for a task whose Exec returned an error (at most maxRetry per task); EVERY order of start/retry actions and parked seams with every outcome is executed, then a closing phase executes every task that has not returned nil once more, alone, without failures. Oracle: when PutAndReplicate reaches build-index R an UploadBlob of every dependency blob of that task to remote origin R has returned success to the local origin (confirmed present); Exec nil => build-index R holds the tag; the closing Exec returns nil; every Exec returns. Vacuity counters: orders in which two requests for the same (remote, namespace, blob) overlapped in the handler, and in which an upload failed during such an overlap."
+	run.Rule = "E1(seq): per scenario (1-2 dependencies x 1-2 local origins), ONE controlled thread executes a tag-replication task with the real tagreplication.Executor over the real blobclient.ClusterClient (ReplicateToRemote -> Poll, hard-coded back-off on a virtual clock) up to `attempts` times (stopping at the first nil, as the persisted-retry manager does) and then once more in a closing phase where every answer is ok. Every environment answer is a vrt.Choose: remote build-index Has {truthful, 503}, Origin {ok, 503}, PutAndReplicate {ok, 503, 409, network error, stored but response lost}; each local origin's ReplicateToRemote {ok, 202 then ok, 202 until the back-off stops, 503, 404, network error}. The explorer enumerates every answer sequence with at most `bound` non-default answers. Oracle: whenever PutAndReplicate reaches the remote build-index every dependency has been answered ok by a local origin for that remote origin cluster; Exec returns nil only if the remote build-index holds the tag with the task's digest; the closing Exec returns nil. distinct = distinct outcome classes (per-Exec result class incl. 202 / back-off timeout / origin fall-back flags) per scenario. PART 2, E1q (testing/synctest bubble): 2-3 tasks (two remote clusters A, B and/or two tags, 1-2 dependency blobs) are executed by concurrent real Executor.Exec calls over the real ClusterClient in front of the REAL blobserver.Server (replicate-to-remote requests served by Server.Handler().ServeHTTP, blobs in a real CAStore); seams = each remote origin cluster's UploadBlob (parks while the upload is in flight; on release reads the bytes the origin sends and records that remote origin R holds the blob) and each remote build-index's PutAndReplicate; EVERY order of the actions 'start Exec <task>' and of the parked seams is executed. Oracle: when PutAndReplicate reaches build-index R, remote origin R has really received every dependency blob of that task; Exec nil => build-index R holds the tag; every Exec returns. PART 3, E1q: the world of part 2 with (a) the SAME task (same tag, remote, dependency blobs) executed by 2-3 build-index replicas at once (plus: one tag to two remotes; two tags sharing a blob on one remote; thorough: two replicas and a second remote), so that several replicate-to-remote requests for the same (remote, namespace, blob) are inside the real origin handler together, (b) the outcome of every released upload an environment answer {ok; 503, nothing stored; bytes stored but the response is lost}, at most maxFail non-ok answers per execution, (c) 'retry Exec <task>' as a further action for a task whose Exec returned an error (at most maxRetry per task); EVERY order of start/retry actions and parked seams with every outcome is executed, then a closing phase executes every task that has not returned nil once more, alone, without failures. Oracle: when PutAndReplicate reaches build-index R an UploadBlob of every dependency blob of that task to remote origin R has returned success to the local origin (confirmed present); Exec nil => build-index R holds the tag; the closing Exec returns nil; every Exec returns. Vacuity counters: orders in which two requests for the same (remote, namespace, blob) overlapped in the handler, and in which an upload failed during such an overlap. PART 4, E3 (breadth-first search over histories, one expansion per distinct state, successors by replay on a fresh system): RE-PUSHED tags on ONE long-lived system = sqlite database with the real localdb schema + real tagreplication.Store + real tagreplication.Remotes + the real persistedretry manager (built by NewManager, its goroutines stopped at once; the harness calls Add, one worker iteration on the incoming or the retries queue, pollRetries) + real Executor over the real ClusterClient, against a fake local origin and fake remote clusters. Alphabet: push <tag>=<image> for 1-2 tags x 2-3 images (A=[L1,mA], B=[L2,mB] disjoint, C=[L1,L2,mC] overlapping both; a push adds one task per destination as tagserver.replicateTag does, 1-2 remote clusters); work <queue> with every call succeeding or with exactly one failing call out of {Has 503, Origin 503, k-th ReplicateToRemote 503 (k=1..3), PutAndReplicate 503, PutAndReplicate stored but response lost}; poll; restart (database re-opened, NewStore, NewManager: pending tasks become failed, queues are lost); settle (no failure any more: drain queues and poll until no task is stored). EVERY history up to the depth bound is executed. Oracle: when PutAndReplicate(tag, d) reaches remote build-index R every dependency blob OF THE IMAGE WITH DIGEST d (the manifest d itself included) has been answered 200 by the local origin for remote origin cluster R; Exec nil => R holds the tag; after settle every pushed (tag, destination) is held by its remote and the store is empty. distinct (part 4) = classes of executed tasks (queue the task came from x injected fault x result x number of dependencies x whether the task's digest is older than the latest push)."
 	run.Assume("the persisted-retry manager (C30) re-runs a task whose Exec returned an error and drops one whose Exec returned nil: 'retried until the remote holds the tag' is checked as 'Exec returns nil only if the remote holds the tag' + 'with every call succeeding Exec returns nil'")
 	run.Assume("'confirmed present in the remote origin cluster' = some local origin answered 200 to the replicate-to-remote request for that blob and that remote origin cluster, in this or an earlier execution of the task (the fakes never lose a blob)")
 	run.Assume("ClusterClient's Poll back-off is hard-coded: the build overlay redirects the time/backoff imports of cluster_client.go to a process-wide virtual clock, reset per execution (kraken's source is unchanged; the import rewrite is trusted to preserve semantics)")
+	run.Assume("small-scope (part 4): 1-2 tags, 1-2 remote clusters, 2-3 images, one local origin, at most one failing call per Exec, no 202 answers, history depth 6-8 (thorough 5-10) as named per search")
 	run.Assume("small-scope: part 1 one tag, 1-2 dependencies, 1-2 origins, one remote; part 2 2-3 concurrent tasks, 2 remotes, 1-2 blobs, one local origin, no injected failures; part 3 2-3 concurrent tasks of which 2-3 may be the same task, 1-2 blobs, 1-3 failing uploads and 0-2 retries per task as named per scenario, only uploads fail; a remote build-index that answers Has never lies")
 	run.Assume("part 3: replicas of one task are interchangeable, replica k+1 is started only after replica k (symmetry reduction); 'confirmed present in remote origin cluster R' = some UploadBlob of that blob to R returned success to the local origin (by any request: blobs are content-addressed and the fakes never lose a blob)")
 	run.Assume("parts 2-3: the HTTP hop between the cluster client and the origin is replaced by a direct Handler().ServeHTTP call (non-200 status -> httputil.StatusError as blobclient.HTTPClient returns it); scheduling granularity = the seam points (upload in flight / released, put in flight / released, task start), code between two seams runs atomically")
+	run.Assume("part 4: the dependency list of an image is fixed ground truth (what a tagtype resolver returns for its manifest: the layers, then the manifest itself); 'every dependency blob' of a put of tag->d means the dependencies of d, whatever list the stored task carries; which of several pushed digests a remote ends up with is not decided by the statement (kraken keeps the queued task and drops the re-push; a remote that already holds the tag is not updated) and is not checked")
+	run.Assume("part 4: the persisted-retry manager's goroutines are replaced by harness steps (one worker iteration = receive one task + manager.exec; one poller tick = manager.pollRetries) through an export file added to lib/persistedretry by the build overlay; steps are atomic (interleavings inside the manager are property C30); RetryInterval 1ns, tasks have no delay (sqlite timestamps are wall-clock), queue buffers 1-2 so that the queue-full path (task marked failed instead of enqueued) is inside the bound; every instance works on a copy of a database file created and migrated once by the real localdb.New, opened with the same driver settings")
 	if p := run.ReplayPath(); p != "" {
 		replay(run, p)
 		return
@@ -555,7 +558,8 @@ func mainT() {
 		}
 		return strings.TrimSpace(strings.SplitN(v.Msg, "\n", 2)[0])
 	}
-	deadline := time.Now().Add(time.Duration(budget) * time.Second)
+	started := time.Now()
+	deadline := started.Add(time.Duration(budget) * time.Second)
 	scs := scenarios(thorough)
 	need := map[string]int{}
 	markers := []string{"ok-put", "ok-has", "err-origin-lookup", "err-replicate", "err-put", "+202", "+timeout", "+fallback", "close=ok-put", "close=ok-has", "x2=", "x3="}
@@ -691,7 +695,14 @@ func mainT() {
 	// manager + executor (own time budget)
 	rbudget := 60
 	if thorough {
-		rbudget = 5 * 60
+		// whatever parts 1-3 left of 14.5 minutes, at least 2 and at most 5 minutes
+		rbudget = int(time.Until(started.Add(14*time.Minute + 30*time.Second)).Seconds())
+		if rbudget > 5*60 {
+			rbudget = 5 * 60
+		}
+		if rbudget < 2*60 {
+			rbudget = 2 * 60
+		}
 	}
 	repushPart(run, thorough, rbudget)
 	if run.NViolations() == 0 {
